@@ -147,6 +147,8 @@ def cgnr(A, b, x0=None, tol=1e-5, criteria='rr',
     elif criteria == 'MrMr':
         normr = norm(z)
         normMb = norm(M @ b)
+        if normMb == 0.0:
+            normMb = 1.0  # absolute tolerance, as for ||b|| = 0
         rtol = tol * normMb
     elif criteria == 'rMr':
         normr = np.sqrt(old_zr)
